@@ -108,15 +108,6 @@ Definition unclamped (c : case) (i : nat) (d : option Q) : bool :=
 
 (* ---- classes ---- *)
 Definition known_K5 (c : case) : bool := Run.C31.known_K5m (base c).
-Definition known_K6 (c : case) : bool := Run.C31.known_K6m (base c).
-(* K7: lighten / darken past white / black: the lightness is not clamped *)
-Definition known_K7 (c : case) : bool :=
-  match base c with
-  | Some col =>
-      let l := h_lum (to_hsla col) in let a := fdiv (of_bits (c_amt c)) f100 in
-      fgt (fadd l a) f_one || flt (fsub l a) f_zero
-  | None => false
-  end.
 (* K8: hsl()/hwb() colours whose saturation or lightness is itself outside 0..100% (C31 K2/K3) *)
 Definition known_K8 (c : case) : bool :=
   Run.C31.known_K2 (Run.C31.mkCase (c_kind c) (c_in c) None []) || Run.C31.known_K3 (Run.C31.mkCase (c_kind c) (c_in c) None [])
@@ -125,9 +116,9 @@ Definition known_K8 (c : case) : bool :=
 Definition b2z (b : bool) : Z := if b then 1 else 0.
 
 (* [corr; lighten; darken; saturate; desaturate; opacify; transparentize; grayscale;
-    lum unclamped; sat unclamped; alpha unclamped; K5; K6; K7; K8] *)
+    lum unclamped; sat unclamped; alpha unclamped; K5; K8] *)
 Definition run (c : case) : list Z :=
   [ corr c; b2z (law_lighten c); b2z (law_darken c); b2z (law_saturate c); b2z (law_desaturate c);
     b2z (law_opacify c); b2z (law_transparentize c); b2z (law_grayscale c);
     b2z (unclamped c 2 (amt_q c)); b2z (unclamped c 1 (amt_q c)); b2z (unclamped c 3 (aamt_q c));
-    b2z (known_K5 c); b2z (known_K6 c); b2z (known_K7 c); b2z (known_K8 c) ].
+    b2z (known_K5 c); b2z (known_K8 c) ].
